@@ -10,6 +10,7 @@ seeded multi-cycle crash chains on top.
 """
 import os
 import struct
+import time
 
 from .. import simgen
 
@@ -39,12 +40,12 @@ WALLTIME_FIELDS = (126, 127)
 
 def generate(rng, tier, index):
     integ = INTEGS[index % len(INTEGS)] if index < 2 * len(INTEGS) else rng.choice(INTEGS)
-    cfg = simgen.gen_planetary_config(rng.derive("cfg"), integrators=[integ], nmin=2, nmax=5 if tier == "quick" else 8,
+    cfg = simgen.gen_planetary_config(rng.derive("cfg"), integrators=[integ], nmin=2, nmax=4 if tier == "quick" else 8,
                                       allow_var=rng.chance(0.3), allow_collisions=False)
     cfg["alloc"] = rng.choice([1, 2, 2])
     d = rng.derive("driver")
     mode = d.choice(["manual_steps", "manual_integrate", "auto_step", "auto_interval"])
-    nsnap = d.randint(2, 4 if tier == "quick" else 6)
+    nsnap = d.randint(2, 3 if tier == "quick" else 6)
     chunk = d.randint(1, 5)
     drv = dict(mode=mode, nsnap=nsnap, chunk=chunk)
     if mode in ("manual_integrate", "auto_interval"):
@@ -362,6 +363,7 @@ def execute(case, ctx):
                     restart(G, m, tag2, depth + 1, chain_budget - 1)
 
     total = 0
+    cut_short = False
     chains_left = case.get("chains", 0)
     chain_at = set()
     F = b""
@@ -375,6 +377,9 @@ def execute(case, ctx):
                 if only is not None and [j, wi, k] not in only:
                     continue
                 if only is None and any(not ctx.known(v["key"]) for v in viols):
+                    break
+                if only is None and ctx.stop_at and total % 50 == 0 and time.time() > ctx.stop_at + 5:
+                    cut_short = True
                     break
                 total += 1
                 ctx.op(total)
@@ -413,7 +418,7 @@ def execute(case, ctx):
     sig = sorted(set(sigs))
     return dict(viols=viols, sig=sig, probes=probes, faults=faults,
                 sim={"steps": int(steps_ref), "snapshots": nref, "crash_images": total, "archive_bytes": len(complete[-1])},
-                exhaustive=(only is None and not viols))
+                exhaustive=(only is None and not viols and not cut_short))
 
 
 def shrink(case, still_fails, viol=None):
